@@ -233,7 +233,7 @@ def hyp_extracts(ctx, n):
 
 def tasks(tier, seed):
     full = tier == 'thorough'
-    return [('hyp_extracts', dict(n=150 if not full else 1500)) for _ in range(8 if not full else 16)]
+    return [('hyp_extracts', dict(n=300 if not full else 1500)) for _ in range(16)]
 
 
 def replay(case):
